@@ -79,6 +79,8 @@ func RewriteClause(decls map[ast.PredicateSym]*ast.Decl, clause ast.Clause) ast.
 			varToBind := map[ast.Variable]bool{}
 			negVars := make(map[ast.Variable]bool)
 			ast.AddVars(p, negVars)
+			// A wildcard never gets a value, it stands for "any".
+			delete(negVars, ast.Variable{"_"})
 			for v := range negVars {
 				if boundVars.Find(v) == -1 {
 					varToBind[v] = true
@@ -103,17 +105,16 @@ func RewriteClause(decls map[ast.PredicateSym]*ast.Decl, clause ast.Clause) ast.
 				premises = append(premises, delayNegAtom[i])
 				toRemove = append([]int{i}, toRemove...)
 			}
-			for i := range toRemove {
-				negAtomTail := []ast.Term{}
-				varsTail := []map[ast.Variable]bool{}
-				if i+1 < len(delayNegAtom) {
-					negAtomTail = delayNegAtom[i+1:]
-					varsTail = delayVars[i+1:]
-				}
-				delayNegAtom = append(delayNegAtom[:i], negAtomTail...)
-				delayVars = append(delayVars[:i], varsTail...)
+			// toRemove holds the indices in descending order.
+			for _, i := range toRemove {
+				delayNegAtom = append(delayNegAtom[:i:i], delayNegAtom[i+1:]...)
+				delayVars = append(delayVars[:i:i], delayVars[i+1:]...)
 			}
 		}
 	}
+	// Negated atoms whose variables never get bound stay in the clause, so
+	// that CheckRule reports the unbound variable instead of the atom being
+	// silently dropped.
+	premises = append(premises, delayNegAtom...)
 	return ast.Clause{Head: clause.Head, HeadTime: clause.HeadTime, Premises: premises, Transform: clause.Transform}
 }
